@@ -664,5 +664,5 @@ void one_case(vh::Ctx & c, uint64_t idx)
 
 int main(int argc, char ** argv)
 {
-  return vh::run(argc, argv, "C14", {12000, 400000}, one_case);
+  return vh::run(argc, argv, "C14", {8000, 400000}, one_case);
 }
